@@ -5,10 +5,13 @@ import Zlink.Model.Alias
 namespace DriverAlias
 open Wire Rx Alias
 
-/-- receive every frame of each group (one arrival per group), collecting the views -/
-def runGroups (C : Consts) : List (List (List Byte)) → ASt → Net → List View → ASt × List View
+/-- receive every frame of each group (one arrival per group), collecting the views; `stop` = how many
+    frames are received in all (the stream ends at a frame that is a general error: that frame is consumed,
+    nothing after it is) -/
+def runGroups (C : Consts) (stop : Nat) : List (List (List Byte)) → ASt → Net → List View → ASt × List View
   | [], a, _, vs => (a, vs)
   | g :: gs, a, e, vs =>
+    if vs.length ≥ stop then (a, vs) else
     let e := { e with avail := e.avail ++ g.flatMap (· ++ [0]) }
     let rec recvN (n : Nat) (a : ASt) (e : Net) (vs : List View) : ASt × Net × List View :=
       match n with
@@ -18,8 +21,8 @@ def runGroups (C : Consts) : List (List (List Byte)) → ASt → Net → List Vi
         match r.2.2.2 with
         | some v => recvN n r.2.1 r.2.2.1 (vs ++ [v])
         | none => (r.2.1, r.2.2.1, vs)
-    let (a', e', vs') := recvN g.length a e vs
-    runGroups C gs a' e' vs'
+    let (a', e', vs') := recvN (min g.length (stop - vs.length)) a e vs
+    runGroups C stop gs a' e' vs'
 
 def splitGroups : List Nat → List (List Byte) → List (List (List Byte))
   | [], _ => []
@@ -29,24 +32,34 @@ def handle (ts : List String) : String :=
   let (_, r0) := splitAt "F" ts
   let (fs, r1) := splitAt "G" r0
   let (gs, r2) := splitAt "O" r1
-  let (os, obs) := splitAt "=>" r2
+  let (osx, obs) := splitAt "=>" r2
+  let (os, xs) := splitAt "X" osx
   let frames := fs.map decBytes
+  -- index of the frame at which the stream yields a general error and ends (none = no such frame)
+  let errAt : Option Nat := match xs.head? with | some "-" => none | some t => t.toNat? | none => none
   let groups := gs.map String.toNat!
   let off := (os.headD "0").toNat!
   let C := DriverRx.consts
-  let (a, vs) := runGroups C (splitGroups groups frames) (ainit C) net0 []
+  let stop := match errAt with | some k => k + 1 | none => frames.length
+  let (a, vs0) := runGroups C stop (splitGroups groups frames) (ainit C) net0 []
+  -- the erroring frame is consumed but yields no item
+  let vs := match errAt with | some k => vs0.take k | none => vs0
   -- the borrowed bytes are the `name` value: from `off` to 3 bytes before the end of the frame (`"}}`)
   let sub (v : View) : View := { v with start := v.start + off, len := v.len - off - 3, snap := (v.snap.drop off).take (v.len - off - 3) }
   let v0 := vs.head?
   let dist (v : View) : String := match v0 with
     | some w => if v.gen == w.gen then toString ((v.start : Int) - (w.start : Int)) else "moved"
     | none => "0"
-  let m := " ".intercalate (vs.map fun v => (if Intact a (sub v) then "same" else "diff") ++ "@" ++ dist v)
+  let m := " ".intercalate ((vs.map fun v => (if Intact a (sub v) then "same" else "diff") ++ "@" ++ dist v) ++
+    (if errAt.isSome then ["err"] else []))
   -- oracle: every held item still reads as it did; and when all replies came in one read they lie
   -- in one buffer at the distances their frames dictate (nothing was moved)
   let offsets : List Int := (frames.foldl (fun (acc : List Int × Int) f => (acc.1 ++ [acc.2], acc.2 + f.length + 1)) ([], 0)).1
-  let want := offsets.map fun d => "same@" ++ toString d
-  let h := obs.all (·.startsWith "same@") && obs.length == frames.length && (groups.length != 1 || obs == want)
+  let nItems := match errAt with | some k => k | none => frames.length
+  let want := (offsets.take nItems).map (fun d => "same@" ++ toString d) ++ (if errAt.isSome then ["err"] else [])
+  let items := obs.filter (· != "err")
+  let h := items.all (·.startsWith "same@") && items.length == nItems && (obs.contains "err" == errAt.isSome) &&
+    (groups.length != 1 || obs == want)
   
   "M " ++ m ++ " | H " ++ (if h then "1" else "0")
 end DriverAlias
